@@ -800,6 +800,14 @@ func (sr *storeRun) sequential() *Verdict {
 						v = violation("layout-invalid", "", "after step %d %s, in which disk operation %d failed with EIO (result %s): %s\nhistory: %v", i, op, op.FailMut, got, d, opsString(sp.Ops[:i+1]))
 						return
 					}
+					if _, had := sr.model.tags[op.Ref]; had && op.Op == "tag" && got.Err != "" {
+						// a Tag that failed may or may not have moved the name; it has no business removing it
+						if r := execOp(ctx, sr.store, g, SOp{Op: "resolve", Ref: op.Ref}); r.Err == "notfound" {
+							v = violation("tag-lost-by-failed-tag", "", "after step %d %s failed with EIO in disk operation %d (result %s) the name %q, which was set before, resolves to nothing\nhistory: %v", i, op, op.FailMut, got, op.Ref, opsString(sp.Ops[:i+1]))
+							return
+						}
+						sr.info.Probes["name_survives_failed_tag"]++
+					}
 					if sr.p.id != "C07" {
 						// the caller tries the same call again once the disk behaves; whatever it
 						// answers now, the layout on disk must be valid afterwards as well
